@@ -825,6 +825,7 @@ func TestC12(t *testing.T) {
 	// (7) failed Initialize leaves nothing behind
 	if shard == 0 && !stuck {
 		c12failedInit(rep, r)
+		c12relife(rep, r)
 	}
 	rep.Sample(map[string]interface{}{"placement": "scenario=tcp-server point=ch.reader.afterRead occurrence=2 consumer=stopped writers=3 release_delay=200us"})
 	rep.Floor("placements", 10)
@@ -832,6 +833,113 @@ func TestC12(t *testing.T) {
 }
 
 var stuckFlag int32
+
+// c12relife: one Node value that is initialised, used and closed several times in a row (an application that restarts its
+// link layer). Every life ends like the first: Close returns, the event stream ends, the port is free, writes return.
+func c12relife(rep *vh.Report, r *vh.RNG) {
+	port := freeTCPPort()
+	ln, err := net.Listen("tcp4", "127.0.0.1:0")
+	if err != nil {
+		return
+	}
+	defer ln.Close()
+	go func() {
+		for {
+			c, err := ln.Accept()
+			if err != nil {
+				return
+			}
+			go func() { _, _ = io.Copy(io.Discard, c); c.Close() }()
+		}
+	}()
+	node := &gomavlib.Node{Endpoints: []gomavlib.EndpointConf{gomavlib.EndpointTCPServer{Address: fmt.Sprintf("127.0.0.1:%d", port)}, gomavlib.EndpointTCPClient{Address: ln.Addr().String()}},
+		Dialect: testDialect, OutVersion: gomavlib.V2, OutSystemID: 14, HeartbeatPeriod: 5 * time.Millisecond, StreamRequestEnable: true}
+	before := socketFDs()
+	for life := 1; life <= 4; life++ {
+		wit := map[string]interface{}{"scenario": "relife", "life": life}
+		if err := node.Initialize(); err != nil {
+			if life == 1 {
+				rep.Inconclusive("C12 relife: " + err.Error())
+			} else {
+				rep.Violation("what=relife:init", fmt.Sprintf("the node value could be initialised %d time(s) but not once more after Close: %v", life-1, err), wit)
+			}
+			return
+		}
+		evDone := make(chan struct{})
+		go func() {
+			for range node.Events() {
+			}
+			close(evDone)
+		}()
+		c, derr := net.Dial("tcp4", fmt.Sprintf("127.0.0.1:%d", port))
+		if derr == nil {
+			_, _ = c.Write(hbFrame(byte(life), 1, 3, 0))
+		}
+		for i := 0; i < 20; i++ {
+			_ = node.WriteMessageAll(&MessageVfUid{Uid: uint64(i)})
+		}
+		time.Sleep(time.Duration(5+r.Intn(20)) * time.Millisecond)
+		closed := make(chan struct{})
+		go func() { node.Close(); close(closed) }()
+		select {
+		case <-closed:
+		case <-time.After(10 * time.Second):
+			rep.Violation(fmt.Sprintf("what=close-stuck@relife"), fmt.Sprintf("Node.Close did not return within 10 s in life %d of a node value that is initialised and closed repeatedly (all timers <= 200 ms)", life),
+				map[string]interface{}{"scenario": "relife", "life": life, "goroutines": strings.Join(libGoroutines(), "\n\n")})
+			return
+		}
+		select {
+		case <-evDone:
+		case <-time.After(3 * time.Second):
+			rep.Violation("what=events-open", fmt.Sprintf("the event channel was not closed after Close returned (life %d of a re-initialised node value)", life), wit)
+			return
+		}
+		wd := make(chan struct{})
+		go func() { _ = node.WriteMessageAll(&MessageVfUid{Uid: 1}); close(wd) }()
+		select {
+		case <-wd:
+		case <-time.After(3 * time.Second):
+			rep.Violation("what=write-blocked", fmt.Sprintf("a Write* call after Close blocks (life %d of a re-initialised node value)", life), wit)
+			return
+		}
+		if x, err := net.Listen("tcp4", fmt.Sprintf("127.0.0.1:%d", port)); err != nil {
+			if portHeldBySelf("tcp", port) {
+				rep.Violation("what=port:tcp", fmt.Sprintf("TCP port still bound after Close returned (life %d of a re-initialised node value)", life), wit)
+				return
+			}
+		} else {
+			x.Close()
+		}
+		if c != nil {
+			c.Close()
+		}
+		rep.Eval(1)
+		rep.Count("node_value_lives", 1)
+	}
+	left := waitNoLibGoroutines(func(g string) bool {
+		return strings.Contains(g, "verifharness/nodeprops") && !strings.Contains(g, "gomavlib/v3.(*")
+	}, 30*time.Millisecond)
+	for _, g := range left {
+		rep.Violation("what=leak:"+topFrame(g), "a goroutine of a re-initialised node value is still alive after its last Close", map[string]interface{}{"scenario": "relife", "goroutine": g})
+	}
+	ln.Close()
+	var leaked []string
+	for i := 0; i < 40; i++ {
+		leaked = leaked[:0]
+		for sk := range socketFDs() {
+			if !before[sk] {
+				leaked = append(leaked, sk)
+			}
+		}
+		if len(leaked) == 0 {
+			break
+		}
+		time.Sleep(50 * time.Millisecond)
+	}
+	if len(leaked) > 0 {
+		rep.Violation("what=port:fd", fmt.Sprintf("%d socket(s) of a re-initialised node value still held after its last Close", len(leaked)), map[string]interface{}{"sockets": describeSockets(leaked)})
+	}
+}
 
 // c12long: three nodes that live for 31.5 s (the stream-request housekeeping runs every 30 s on a constant of the
 // library): (a) no ArduPilot sender until after the first housekeeping run, then heartbeats on two channels, (b) ArduPilot
